@@ -1,6 +1,7 @@
 """C08 - loading what was dumped returns the system (LAMMPS data / dump, table, POSCAR)."""
 from __future__ import annotations
 
+import copy
 import io
 import os
 import shutil
@@ -18,7 +19,7 @@ from ..oracle import c08_compare as CMP
 from ..oracle import c08_units as U
 from .. import cover
 
-RULE = ('six case groups (atom_data, atom_dump, table, poscar, scale, shapes).  Classes are round-robin functions of the case index: '
+RULE = ('eight case groups (atom_data, atom_dump, table, poscar, scale, shapes, pscale, history).  Classes are round-robin functions of the case index: '
         'atom_data = 21 atom styles (incl. 3 hybrids) x 8 unit styles (mixed radix, every pair within 168 cases) with cell kind '
         '(7 families + strongly tilted) / origin class / 8 pbc settings / position class (inside, mixed inside-outside-on-face-'
         'near-face, all on faces, several cells away) / type class (single, contiguous, gaps, type 1 unused) / float format / '
@@ -34,6 +35,18 @@ RULE = ('six case groups (atom_data, atom_dump, table, poscar, scale, shapes).  
         'with exponent formats as data file and as dump file; shapes = per-atom properties of shape (), (1,), (2,), (3,), (1,1), '
         '(1,3), (3,1), (3,3), (1,1,1), (2,2) each as float and as integer plus one bool, natoms 1/2/3/more, 4 ways of naming them '
         'to the writer, through table and atom_dump with the returned conversion table (as given and spelled as parallel lists).  '
+        'pscale = POSCAR box_scale over 12 classes of numbers (1, short decimals above / below one, irrational constants, '
+        'random full-mantissa factors, the length of a cell vector, short decimals perturbed in the 8th..12th digit, factors 1e-3..1e-2 '
+        'and 1e2..1e3, int, numpy float32 / float64 scalars) x 8 coordinate keywords x 4 float formats, read back from string, path and '
+        'stream, plus harness-written files whose scale line is spelled in 7 ways (exponent, shortest repr, 17 digits, padded, upper-case E, '
+        'plus sign, long fixed-point).  history = 4 formats x 5 kinds of call history (A-B-A: write/read A, write/read B with the '
+        'same argument objects and - for data files - another atom style of the same unit style, incl. hybrid styles in both orders, '
+        'then A\'s kept result, the arguments, a repeated read and a repeated write are re-judged; reset: one System object re-set in '
+        'place to another cell / positions / properties and back; gen2: a loaded System and a deep copy written again; forms: Systems '
+        'built from integer arrays (integer and float cell), nested lists, float32 arrays, strided / Fortran-ordered arrays, narrow '
+        'integer dtypes; handles: open text handle / StringIO for writing, open binary handle / BytesIO / text passed by keyword for '
+        'reading) x rotating options (9 atom-style pairs, 4 column-table variants for dump files and tables incl. caller-written '
+        'tables and box-relative positions, 8 POSCAR keywords with and without scale).  '
         'Ground truth = the generated numpy arrays (never re-read from atomman). '
         'A case is non-trivial when it has a tilted or shifted cell, an atom outside the cell or on a face, more than one '
         'atom type, or a unit style whose length unit is not the angstrom; distinct = distinct fingerprint of '
@@ -57,6 +70,14 @@ ASSUMPTIONS = [
     'KeyError (LAMMPS defines no density unit for that style, the unit table has no entry): counted as refusals',
     'dump files and POSCAR allow no comments or blank lines between records, so only the atom-line order (dump), the free '
     'comment line and trailing blank lines (POSCAR) are varied there',
+    'POSCAR box_scale is a positive finite number (VASP\'s negative "cell volume" convention is not part of atomman\'s writer); the '
+    'bound on the loaded cell includes half a unit in the last place of the scale line as printed with float_format',
+    'history group: results of one call are compared bit for bit with results of an equal call (same text, same arguments) and a kept '
+    'result with itself later on; a second write/read generation is allowed twice the bound (fully periodic data files only: the '
+    'enlargement of non-periodic directions is not idempotent); float32 per-atom values that go through a unit conversion are '
+    'converted in float32 by numpy and get 4 float32 epsilons on top; float32 positions are not generated (Atoms keeps them '
+    'float32, every later change is then float32 arithmetic)',
+    'a loaded System whose integer columns are read-only arrays (pandas >= 3 hands out read-only buffers) is counted, not judged',
     'the magnitude of one file unit (for input scaling and the precision bound only) is taken from atomman\'s unit table where '
     'it has the entry, cross-checked against the oracle table (disagreements are counted, they belong to C07/C09)',
 ]
@@ -701,6 +722,81 @@ def group_poscar(env):
             pass
 
 
+# ------------------------------------------------------------------------------------------------ POSCAR scale-factor classes
+# group_poscar hands the writer typed-in factors only (1.0, 2.5, 0.37): numbers that any number format prints exactly.
+# Here box_scale runs over the classes of GS.SCALECLASSES (computed factors with a full mantissa, factors decades away
+# from one, other number types) x coordinate keyword x float format; the reader is also given harness-written files
+# whose scale line is spelled in the ways list-directed input allows.
+def group_pscale(env):
+    ctx, rec, am = env.ctx, env.rec, env.am
+    ncl, ncs = len(GS.SCALECLASSES), len(COORDSTYLES)
+    n = ctx.pick(ncl * ncs, ncl * ncs * 10)
+    for i in ctx.cases('pscale', n):
+        rng = ctx.rng
+        cls = GS.SCALECLASSES[i % ncl]
+        rnd = i // ncl
+        cs = COORDSTYLES[rnd % ncs]
+        blk = i // (ncl * ncs)
+        fmt = FMT_POSCAR[(i + rnd) % len(FMT_POSCAR)]
+        kind = GS.pick(i + rnd + blk, 1, GS.POSCAR_KINDS)
+        origin = cells.ORIGINS[(i // 2 + rnd + blk) % 3]
+        posclass = GS.POSCLASSES[(i + rnd // 2 + blk) % 4]
+        typeclass = GS.TYPECLASSES[(i // 3 + rnd + blk) % 4]
+        symclass = ('all', 'none', 'partial')[(i + rnd + blk) % 3]
+        natoms = natoms_for(ctx, rng, i + 4 + blk)
+        truth = GS.gen_truth(rng, kind, origin, (True, True, True), posclass, typeclass, symclass, natoms, 1.0)
+        sobj, scale = GS.gen_box_scale(rng, cls, rnd + blk, truth['vects'])
+        cart = cs[0] in 'CcKk'
+        mode = 'cartesian' if cart else 'direct'
+        written = list(truth['symbols']) if truth['symbols'] is not None and None not in truth['symbols'] else None
+        nd = GS.significant_digits_needed(scale)
+        sig = ('pscale', cls, cs, fmt)
+        rec.case(sig + (kind, origin, posclass, typeclass), nontrivial=True,
+                 fp=fingerprint(truth['vects'], truth['origin'], truth['pos'], truth['atype'], scale, sig))
+        count_truth(rec, 'pscale', truth)
+        rec.count(f'class:pscale:{cls}')
+        rec.count(f'class:pscale:{cls}:{mode}')
+        rec.count(f'class:pscale:fmt:{fmt}')
+        if nd > 7:
+            rec.count('class:pscale:scale-needs-more-than-7-digits')
+            rec.count(f'class:pscale:scale-needs-more-than-7-digits:{mode}')
+        if nd >= 15:
+            rec.count('class:pscale:scale-needs-15-or-more-digits')
+        if i < 2 * ncl:
+            rec.sample(dict(group='pscale', scale_class=cls, box_scale=repr(sobj), type=type(sobj).__name__, digits_needed=nd,
+                            coordstyle=cs, float_format=fmt, cell=kind, natoms=natoms))
+        dkw = dict(coordstyle=cs, box_scale=sobj, float_format=fmt)
+        e = CMP.expect_poscar(truth, fmt, scale, cart, written)
+        text = None
+        with ctx.guard('poscar dump to a string', 'poscar:dump:exception'):
+            if i % 2:
+                text = am.dump('poscar', build(env, truth, {}), **dkw)          # the module-level entry point
+            else:
+                text = build(env, truth, {}).dump('poscar', **dkw)
+        if not isinstance(text, str):
+            continue
+        kp = f'poscar:box_scale-{cls}'
+        load_and_compare(env, 'poscar', 'string', 'scale-classes', text, e, {}, keyprefix=kp)
+        if rnd % 2:
+            path = os.path.join(env.tmp, f'POSCAR_s{i}')
+            with open(path, 'w', encoding='UTF-8') as f:
+                f.write(text)
+            load_and_compare(env, 'poscar', 'path', 'scale-classes', path, e, {}, keyprefix=kp)
+            os.remove(path)
+        else:
+            load_and_compare(env, 'poscar', 'stream', 'scale-classes', io.BytesIO(text.encode()), e, {}, keyprefix=kp)
+        # the reader alone: a file of the same system written by the harness, scale line spelled in another way
+        form = TX.SCALE_TEXT_FORMS[(i + rnd + blk) % len(TX.SCALE_TEXT_FORMS)]
+        order = CMP.poscar_order(truth['atype'])
+        counts = [int((truth['atype'] == k).sum()) for k in range(1, truth['natypes'] + 1)]
+        coords = (truth['pos'] if cart else truth['rel'])[order]
+        own = TX.poscar_write(truth['vects'], [coords], counts, written, cs, scale, fmt='%.16e',
+                              scale_line=TX.scale_text(scale, form))
+        e2 = CMP.expect_poscar(truth, '%.16e', scale, cart, written)
+        rec.count(f'class:pscale:scale-line:{form}')
+        load_and_compare(env, 'poscar', 'string', 'scale-line-forms', own, e2, {}, keyprefix=f'poscar:scale-line-{form}')
+
+
 # ------------------------------------------------------------------------------------------------ physical length scale
 # Every other group gives the system a size of O(1..10) *file units* (so that fixed-point formats keep their digits): a cell
 # written in si units is then metres wide.  Here the cell is 3..30 angstrom whatever the unit style, i.e. 1e-10..1e-9 in a
@@ -935,6 +1031,482 @@ def group_shapes(env):
             rec.count('shapes:atom_dump:evaluated')
 
 
+# ------------------------------------------------------------------------------------------------ call histories / forms
+# Every other group builds a fresh System from float64 arrays, writes it once and reads it in a process that may or may
+# not have seen the same entry point before.  Here each format goes through five kinds of history:
+#   A-B-A   : write+read A (result kept), write+read B with the very same argument objects (other style of the same
+#             family where the format has styles), then: A's kept result has not changed in any bit, the arguments are as
+#             they were, B is right, reading A's text again gives A's result bit for bit, writing A again gives A's text;
+#   reset   : ONE System object written and read as A, re-set in place to B (cell, origin, positions, properties,
+#             periodicity) and written again, set back to A and written a third time;
+#   gen2    : the System that a load returned (and a deepcopy of the built one) is written again and read again;
+#   forms   : the System is built from integer arrays, nested lists, float32 arrays, strided / Fortran-ordered
+#             arrays, narrow integer dtypes;
+#   handles : written to an open text handle / StringIO, read from an open binary handle and with the text passed by
+#             keyword.
+HIST_KINDS = ['A-B-A', 'reset', 'gen2', 'forms', 'handles']
+HIST_FORMATS = ['atom_data', 'atom_dump', 'table', 'poscar']
+DATA_PAIRS = [('hybrid sphere charge', 'atomic'), ('hybrid charge sphere', 'hybrid sphere charge'), ('charge', 'atomic'),
+              ('atomic', 'full'), ('hybrid charge molecular', 'molecular'), ('full', 'hybrid charge molecular'),
+              ('dipole', 'charge'), ('sphere', 'hybrid sphere dipole'), ('atomic', 'hybrid sphere charge')]
+HIST_PROPS = [('velocity', 'f', (3,), 'velocity'), ('disp', 'f', (3,), None), ('cna', 'i', (), None), ('stress', 'f', (3, 3), None),
+              ('flag', 'b', (), None)]
+HIST_FMT = ['%.13e', '%.16e', '%.13f', '%.10e']
+FIRSTARG = {'atom_data': 'data', 'atom_dump': 'data', 'table': 'table', 'poscar': 'poscar'}
+EPS32 = float(np.finfo(np.float32).eps)
+
+
+class Trip:
+    """One way of writing and reading one format (all options fixed, the keyword dicts are reused from call to call)."""
+
+    def __init__(self, env, fmt, k, rng, exponent_only=False):
+        self.env, self.fmt, self.k = env, fmt, k
+        self.ffmt = HIST_FMT[k % len(HIST_FMT)]
+        if exponent_only and self.ffmt.endswith('f'):
+            self.ffmt = '%.13e'
+        self.units = UNITS[(k + k // 8) % len(UNITS)] if fmt in ('atom_data', 'atom_dump') else None
+        self.scaled = False
+        self.Flen = 1.0
+        self.styles = (None, None)
+        self.opt = '-'
+        if fmt == 'atom_data':
+            sa, sb = DATA_PAIRS[k % len(DATA_PAIRS)]
+            self.withvel = (k // 2) % 2 == 0
+            need = ST.quantities(sa, self.withvel) | ST.quantities(sb, self.withvel)
+            if not style_available(env, self.units, need):
+                self.units = 'metal'
+            self.styles = (sa, sb)
+            self.opt = sa + ' -> ' + sb
+            self.dkw = dict(units=self.units, float_format=self.ffmt, return_info=False, safecopy=True)
+            self.lkw = dict(units=self.units)
+        elif fmt == 'atom_dump':
+            self.opt = ('all', 'spos', 'caller-prop_info', 'supos')[k % 4]
+            self.dkw = dict(lammps_units=self.units, float_format=self.ffmt, return_prop_info=True)
+            if self.opt in ('spos', 'supos'):
+                self.dkw['prop_name'] = ['atom_id', 'atype', self.opt] + [p[0] for p in HIST_PROPS]
+                self.scaled = True
+            elif self.opt == 'caller-prop_info':
+                self.dkw['prop_info'] = [dict(prop_name='atom_id', table_name='id'), dict(prop_name='atype', table_name='type'),
+                                         dict(prop_name='pos', table_name=['x', 'y', 'z'], unit=env.am.lammps.style.unit(self.units)['length'])] \
+                    + [dict(prop_name=nm, shape=sh, unit=(env.am.lammps.style.unit(self.units)[q] if q else None))
+                       for nm, kd, sh, q in HIST_PROPS]
+            self.lkw = dict(lammps_units=self.units)
+        elif fmt == 'table':
+            self.opt = ('default', 'scaled-lists', 'caller-prop_info', 'unit-lists')[k % 4]
+            self.dkw = dict(float_format=self.ffmt, return_prop_info=True)
+            names = ['atype', 'pos'] + [p[0] for p in HIST_PROPS]
+            self.lunit = TABLE_UNITS[k % len(TABLE_UNITS)][0]
+            if self.opt == 'scaled-lists':
+                self.dkw.update(prop_name=names, unit=[None, 'scaled'] + [None] * len(HIST_PROPS))
+                self.scaled = True
+            elif self.opt == 'unit-lists':
+                self.dkw.update(prop_name=names, unit=[None, self.lunit] + [None] * len(HIST_PROPS))
+                self.Flen = float(env.uc.set_in_units(1.0, self.lunit))
+            elif self.opt == 'caller-prop_info':
+                self.dkw['prop_info'] = [dict(prop_name='a_id', table_name='id'), dict(prop_name='atype', table_name='type'),
+                                         dict(prop_name='pos', table_name=('x', 'y', 'z'), unit=self.lunit)] \
+                    + [dict(prop_name=nm, shape=list(sh)) for nm, kd, sh, q in HIST_PROPS]
+                self.Flen = float(env.uc.set_in_units(1.0, self.lunit))
+            self.lkw = dict()
+        else:
+            self.cs = COORDSTYLES[k % len(COORDSTYLES)]
+            self.cart = self.cs[0] in 'CcKk'
+            self.scale = float(np.exp(rng.uniform(np.log(0.3), np.log(6.0)))) if k % 3 else 1.0
+            self.opt = ('cartesian' if self.cart else 'direct') + ('-scaled' if k % 3 else '')
+            self.scaled = not self.cart
+            self.dkw = dict(coordstyle=self.cs, box_scale=self.scale, float_format=self.ffmt)
+            self.lkw = dict()
+        if self.units is not None:
+            self.Flen = unit_factor(env, self.units, 'length')
+        # a conversion table the caller wrote by hand serves the writer AND the reader (the same object, again and again)
+        self.caller_table = self.dkw.get('prop_info')
+        self.snapshot = copy.deepcopy(self.dkw)
+
+    def F(self, q):
+        if q is None:
+            return 1.0
+        if self.units is not None:
+            return unit_factor(self.env, self.units, q)
+        return 1.0
+
+    def spec(self, which=0):
+        if self.fmt == 'atom_data':
+            st = self.styles[which]
+            return ST.atoms_columns(st) + (ST.velocity_columns(st) if self.withvel else [])
+        if self.fmt in ('atom_dump', 'table'):
+            return list(HIST_PROPS)
+        return []
+
+    def gen_props(self, rng, truth, which=0):
+        env, n = self.env, len(truth['atype'])
+        if self.fmt == 'atom_data':
+            return gen_style_props(env, rng, truth, self.styles[which], self.units, self.withvel)
+        return {nm: GS.gen_prop(rng, n, kd, sh, self.F(q)) for nm, kd, sh, q in self.spec()}
+
+    def dump(self, system, which=0, f=None):
+        """(text or None, conversion table or None)"""
+        kw = self.dkw
+        if self.fmt == 'atom_data':
+            out = system.dump('atom_data', atom_style=self.styles[which], f=f, **kw) if f is not None else \
+                system.dump('atom_data', atom_style=self.styles[which], **kw)
+            return out, None
+        out = system.dump(self.fmt, f=f, **kw) if f is not None else system.dump(self.fmt, **kw)
+        if self.fmt == 'poscar':
+            return out, None
+        if f is not None:
+            return None, out
+        return out[0], out[1]
+
+    def loadkw(self, truth, pinfo, which=0):
+        kw = self.lkw
+        if self.fmt == 'atom_data':
+            kw['pbc'] = truth['pbc']
+            kw['atom_style'] = self.styles[which]
+        elif self.fmt == 'atom_dump':
+            kw['prop_info'] = pinfo if self.caller_table is None else self.caller_table
+        elif self.fmt == 'table':
+            v = truth['vects']
+            kw['box'] = self.env.am.Box(avect=v[0].copy(), bvect=v[1].copy(), cvect=v[2].copy(), origin=truth['origin'].copy())
+            kw['prop_info'] = pinfo if self.caller_table is None else self.caller_table
+        return kw
+
+    def load(self, src, truth, pinfo, which=0, bykeyword=False):
+        kw = self.loadkw(truth, pinfo, which)
+        with cpu_limit(CPU_LIMIT):
+            if bykeyword:
+                s = self.env.am.load(self.fmt, **{FIRSTARG[self.fmt]: src}, **kw)
+            else:
+                s = self.env.am.load(self.fmt, src, **kw)
+        return s
+
+    def expect(self, truth, props, which=0, float32=False):
+        items = {nm: (props[nm], kd, self.F(q)) for nm, kd, sh, q in self.spec(which)}
+        if self.fmt == 'atom_data':
+            e = CMP.expect_data(truth, self.ffmt, self.Flen, items)
+        elif self.fmt == 'atom_dump':
+            items['atom_id'] = (np.arange(1, len(truth['atype']) + 1), 'i', 1.0)
+            e = CMP.expect_dump(truth, self.ffmt, self.Flen, items, scaled_pos=self.scaled)
+        elif self.fmt == 'table':
+            e = CMP.expect_table(truth, self.ffmt, items, pos_F=self.Flen, scaled_pos=self.scaled)
+        else:
+            sym = truth['symbols']
+            written = list(sym) if sym is not None and None not in sym else None
+            e = CMP.expect_poscar(truth, self.ffmt, self.scale, self.cart, written)
+        if float32:
+            # a float32 property that goes through a unit conversion is converted in float32
+            for nm, (arr, kd, Fq) in items.items():
+                if kd == 'f' and Fq != 1.0 and nm in e.props:
+                    a, t, c = e.props[nm]
+                    e.props[nm] = (a, t + 4 * EPS32 * float(np.abs(a).max(initial=0.0)), c)
+        return e
+
+
+def build_form(env, truth, props, spec, form, rng):
+    """The same system handed to the constructors as other Python / numpy types."""
+    am = env.am
+    v, o, pos, atype = truth['vects'], truth['origin'], truth['pos'], truth['atype']
+    kinds = {nm: kd for nm, kd, sh, q in spec}
+    kw = {}
+    if form == 'int-arrays':
+        o, pos = truth['int_origin'].copy(), truth['int_pos'].copy()
+        v = truth['int_vects'].copy() if truth['int_vects'] is not None else v.copy()       # (integer atoms in a float cell)
+        atype = atype.astype(np.int32)
+        kw = {k: (a.astype(np.int32) if kinds[k] == 'i' else a.copy()) for k, a in props.items()}
+        box = am.Box(avect=v[0], bvect=v[1], cvect=v[2], origin=o)
+    elif form == 'lists':
+        if 'int_pos' in truth:
+            o, pos = truth['int_origin'], truth['int_pos']
+            v = truth['int_vects'] if truth['int_vects'] is not None else v
+        box = am.Box(avect=v[0].tolist(), bvect=tuple(v[1].tolist()), cvect=v[2].tolist(), origin=o.tolist())
+        pos, atype = pos.tolist(), atype.tolist()
+        kw = {k: a.tolist() for k, a in props.items()}
+    elif form == 'float32':
+        box = am.Box(avect=v[0].astype(np.float32), bvect=v[1].astype(np.float32), cvect=v[2].astype(np.float32),
+                     origin=o.astype(np.float32))
+        pos = pos.copy()
+        kw = {k: (a.astype(np.float32) if kinds[k] == 'f' else a.copy()) for k, a in props.items()}
+    elif form == 'strided':
+        vt = np.asfortranarray(v)
+        box = am.Box(avect=vt[0], bvect=vt[1], cvect=vt[2], origin=np.concatenate([o, o])[::2][:3] if False else o[::-1][::-1])
+        big = np.zeros((2 * len(pos), 6))
+        big[::2, ::2] = pos
+        pos = big[::2, ::2]
+        at2 = np.zeros(2 * len(atype), dtype=np.int64)
+        at2[1::2] = atype
+        atype = at2[1::2]
+        for k, a in props.items():
+            if a.ndim > 1:
+                kw[k] = np.asfortranarray(a)
+            else:
+                b2 = np.zeros(3 * len(a), dtype=a.dtype)
+                b2[::3] = a
+                kw[k] = b2[::3]
+    elif form == 'narrow-ints':
+        box = am.Box(avect=v[0].copy(), bvect=v[1].copy(), cvect=v[2].copy(), origin=o.copy())
+        pos = pos.copy()
+        atype = atype.astype(np.uint8)
+        narrow = [np.int8, np.int16, np.uint16, np.uint8]
+        for j, (k, a) in enumerate(props.items()):
+            if kinds[k] == 'i':
+                dt = narrow[(j + len(pos)) % 4]
+                kw[k] = (np.abs(a) if np.dtype(dt).kind == 'u' else a).astype(dt)
+            else:
+                kw[k] = a.copy()
+    else:
+        raise ValueError(form)
+    atoms = am.Atoms(atype=atype, pos=pos, **kw)
+    sym = truth['symbols']
+    return am.System(atoms=atoms, box=box, pbc=truth['pbc'], symbols=(list(sym) if sym is not None else None))
+
+
+def reset_in_place(system, truth, props, j):
+    """Give an existing System the cell, origin, positions, periodicity and property values of ``truth`` (same atoms,
+    same types), through the documented setters."""
+    system.box_set(vects=truth['vects'].copy(), origin=truth['origin'].copy())
+    if j % 2:
+        system.atoms.pos = truth['pos'].copy()
+    else:
+        system.atoms.view['pos'][:] = truth['pos']
+    system.pbc = truth['pbc']
+    for m, (k, a) in enumerate(props.items()):
+        if (j + m) % 2:
+            system.atoms.view[k] = np.array(a, copy=True)
+        else:
+            system.atoms.view[k][:] = a
+
+
+def scramble(system):
+    """Overwrite everything a returned System holds (a result owns its data: nobody else may notice)."""
+    n = 0
+    for k in system.atoms_prop():
+        a = system.atoms.view[k]
+        if not a.flags.writeable:              # (pandas >= 3 hands out read-only column buffers: nothing to overwrite in place)
+            n += 1
+            continue
+        if a.dtype.kind == 'f':
+            a[:] = a * -3.0 + 17.0
+        elif a.dtype.kind in 'iu' and k != 'atype':
+            a[:] = 7
+    system.box_set(vects=system.box.vects * 1.5, origin=system.box.origin + 11.0)
+    return n
+
+
+def group_history(env):
+    ctx, rec, am = env.ctx, env.rec, env.am
+    nf, nk = len(HIST_FORMATS), len(HIST_KINDS)
+    n = ctx.pick(nf * nk * 10, nf * nk * 60)
+    for i in ctx.cases('history', n):
+        rng = ctx.rng
+        fmt = HIST_FORMATS[i % nf]
+        kind = HIST_KINDS[(i // nf) % nk]
+        rnd = i // (nf * nk)
+        k = rnd + (i // nf) % nk + 2 * (i % nf)                      # option counter: another window per (format, kind)
+        form = GS.FORMS[(rnd + i % nf) % len(GS.FORMS)] if kind == 'forms' else None
+        integer = form == 'int-arrays' or (form == 'lists' and rnd % 2 == 0)
+        trip = Trip(env, fmt, k, rng, exponent_only=integer or form == 'float32')
+        kinds = GS.POSCAR_KINDS if fmt in ('poscar', 'table') else GS.LAMMPS_KINDS
+        ckind = kinds[(i + rnd) % len(kinds)]
+        origin = cells.ORIGINS[(i // 2 + rnd) % 3]
+        full = (kind == 'gen2' and fmt == 'atom_data') or (i + rnd) % 2 == 0
+        pbc = cells.PBCS[7] if full else cells.PBCS[(i // 3 + rnd) % 8]
+        posclass = GS.POSCLASSES[(i + i // 5 + rnd) % 4]
+        typeclass = GS.TYPECLASSES[(i // 2 + rnd) % 4]
+        symclass = ('all', 'none')[(i + rnd) % 2] if fmt == 'poscar' else 'none'
+        natoms = natoms_for(ctx, rng, i + rnd + 3)
+        if integer and fmt == 'atom_data' and (rnd // 5) % 2:
+            pbc = cells.PBCS[7]                                         # (the wrap of integer atoms by a float cell needs a periodic axis)
+        if integer:
+            A = GS.gen_integer_truth(rng, pbc, posclass, typeclass, natoms, float_cell=bool((rnd // 5) % 2))
+            rec.count('class:history:form:integer-atoms-in-' + ('float-cell' if A['int_vects'] is None else 'integer-cell'))
+            if A['int_vects'] is None and fmt == 'atom_data' and any(pbc) and (np.floor(A['rel'])[:, list(pbc)] != 0).any():
+                rec.count('class:history:form:integer-atoms-wrapped-by-a-float-cell')
+        else:
+            A = GS.gen_truth(rng, ckind, origin, pbc, posclass, typeclass, symclass, natoms, trip.Flen if fmt != 'poscar' else 1.0)
+        propsA = trip.gen_props(rng, A, 0)
+        if form == 'float32':
+            A['vects'], A['origin'] = GS.float32_exact(A['vects']), GS.float32_exact(A['origin'])
+            A['L'] = float(np.linalg.norm(A['vects'], axis=1).max())
+            A['rel'] = CMP.rel_coords(A['pos'], A['vects'], A['origin'])
+            propsA = {nm: (GS.float32_exact(a) if a.dtype.kind == 'f' else a) for nm, a in propsA.items()}
+        if form == 'narrow-ints':
+            propsA = {nm: (np.abs(a) if a.dtype.kind == 'i' else a) for nm, a in propsA.items()}
+        sig = ('history', fmt, kind, form or '-', trip.opt, trip.ffmt, trip.units or '-')
+        rec.case(sig + (ckind, origin, posclass, typeclass), nontrivial=True,
+                 fp=fingerprint(A['vects'], A['origin'], A['pos'], A['atype'], sig))
+        rec.count(f'class:history:{fmt}:{kind}')
+        rec.count(f'class:history:{kind}')
+        rec.count(f'class:history:{fmt}:option:{trip.opt}')
+        if kind == 'reset' and trip.scaled:
+            rec.count('class:history:reset:box-relative-coordinates-written')
+        if kind == 'A-B-A' and fmt == 'atom_data':
+            rec.count('class:history:atom_data:A-B-A:' + ('hybrid-first' if trip.styles[0].startswith('hybrid') else 'plain-first'))
+        if kind == 'A-B-A' and 'prop_info' in trip.dkw:
+            rec.count('class:history:A-B-A:caller-made-conversion-table')
+        if form:
+            rec.count(f'class:history:form:{form}')
+            rec.count(f'class:history:{fmt}:form:{form}')
+        if i < 2 * nf * nk:
+            rec.sample(dict(group='history', format=fmt, history=kind, form=form, option=trip.opt, float_format=trip.ffmt,
+                            units=trip.units, natoms=natoms, cell=A['kind'], pbc=pbc))
+        base = f'{fmt}:history-{kind}'
+        clause = f'{fmt}: load does not raise on a well-formed file'
+
+        def judge(step, system, e, key=None):
+            if isinstance(system, tuple):
+                system = system[0]
+            CMP.compare(rec, key or f'{base}:{step}', observe(system), e, fmt)
+            rec.count(f'loads:{fmt}:history:{kind}:{step}')
+            rec.count(f'loads:{fmt}')
+
+        eA = trip.expect(A, propsA, 0, float32=(form == 'float32'))
+        # ------------------------------------------------------------------------------------------ forms
+        if kind == 'forms':
+            sysA = None
+            with ctx.guard(f'{fmt}: a System built from {form} is written', f'{base}:{form}:build-or-dump:exception'):
+                sysA = build_form(env, A, propsA, trip.spec(0), form, rng)
+                text, pinfo = trip.dump(sysA, 0)
+            if sysA is None or not isinstance(text, str):
+                continue
+            with ctx.guard(clause, f'{base}:{form}:exception'):
+                judge(form, trip.load(text, A, pinfo, 0), eA, key=f'{base}:{form}')
+            with ctx.guard(clause, f'{base}:{form}:exception'):
+                judge(form + ':stream', trip.load(io.BytesIO(text.encode()), A, pinfo, 0), eA, key=f'{base}:{form}')
+            continue
+        text = pinfo = None
+        with ctx.guard(f'{fmt} dump to a string', f'{fmt}:dump:exception'):
+            sysA = build(env, A, propsA)
+            text, pinfo = trip.dump(sysA, 0)
+        if not isinstance(text, str):
+            continue
+        # ------------------------------------------------------------------------------------------ handles
+        if kind == 'handles':
+            buf = io.StringIO()
+            path = os.path.join(env.tmp, f'hist_{i}.txt')
+            with ctx.guard(f'{fmt} dump to an open handle', f'{base}:dump:exception'):
+                trip.dump(build(env, A, propsA), 0, f=buf)
+                rec.check(buf.getvalue() == text, f'{fmt}: what is written to a StringIO is what is returned as a string',
+                          f'{base}:stringio-differs')
+                with open(path, 'w', encoding='UTF-8') as fh:
+                    trip.dump(build(env, A, propsA), 0, f=fh)
+                with open(path, 'r', encoding='UTF-8') as fh:
+                    rec.check(fh.read() == text, f'{fmt}: what is written to an open text file is what is returned as a string',
+                              f'{base}:filehandle-differs')
+                rec.count(f'history:{fmt}:handles:written')
+            if not os.path.exists(path):
+                with open(path, 'w', encoding='UTF-8') as fh:
+                    fh.write(text)
+            with ctx.guard(clause, f'{base}:binary-handle:exception'):
+                with open(path, 'rb') as fh:
+                    judge('binary-handle', trip.load(fh, A, pinfo, 0), eA)
+            with ctx.guard(clause, f'{base}:keyword:exception'):
+                judge('keyword', trip.load(text if rnd % 2 else path, A, pinfo, 0, bykeyword=True), eA)
+            with ctx.guard(clause, f'{base}:bytesio:exception'):
+                judge('bytesio', trip.load(io.BytesIO(text.encode('UTF-8')), A, pinfo, 0), eA)
+            os.remove(path)
+            continue
+        # ------------------------------------------------------------------------------------------ gen2
+        if kind == 'gen2':
+            s1 = None
+            with ctx.guard(clause, f'{base}:first:exception'):
+                s1 = trip.load(text, A, pinfo, 0)
+                judge('first', s1, eA)
+            if s1 is None:
+                continue
+            with ctx.guard(f'{fmt}: a loaded System is written and read again', f'{base}:second-generation:exception'):
+                if fmt in ('atom_dump', 'table'):
+                    keep = dict(trip.dkw)
+                    for nm in ('prop_name', 'unit', 'shape', 'table_name', 'prop_info'):
+                        trip.dkw.pop(nm, None)
+                    trip.dkw['prop_info'] = pinfo                     # the table the writer returned, handed back to the writer
+                    text2, pinfo2 = trip.dump(s1, 0)
+                    trip.dkw.clear()
+                    trip.dkw.update(keep)
+                else:
+                    text2, pinfo2 = trip.dump(s1, 0)
+                    pinfo2 = pinfo
+                B2 = A
+                if fmt == 'poscar':
+                    # the first generation sits at origin 0 (direct: place in the cell kept; Cartesian: absolute place kept)
+                    B2 = dict(A)
+                    B2['origin'] = np.zeros(3)
+                judge('second-generation', trip.load(text2, B2, pinfo2, 0), CMP.loosen(trip.expect(A, propsA, 0), 2))
+            with ctx.guard(f'{fmt}: a deep copy of a System is written', f'{base}:deepcopy:exception'):
+                t3, _ = trip.dump(copy.deepcopy(build(env, A, propsA)), 0)
+                rec.check(t3 == text, f'{fmt}: a deep copy of a System is written as the System itself', f'{base}:deepcopy-differs')
+                rec.count(f'history:{fmt}:deepcopy:evaluated')
+            continue
+        # ------------------------------------------------------------------------------------------ B
+        B = GS.gen_truth(rng, kinds[(i + rnd + 3) % len(kinds)], cells.ORIGINS[(i // 2 + rnd + 1) % 3],
+                         pbc if kind == 'A-B-A' else cells.PBCS[(i // 3 + rnd + 3) % 8], GS.POSCLASSES[(i + i // 5 + rnd + 1) % 4],
+                         typeclass, symclass, natoms, trip.Flen if fmt != 'poscar' else 1.0)
+        wb = 1 if kind == 'A-B-A' else 0
+        if kind == 'reset':
+            B['atype'], B['natypes'], B['symbols'] = A['atype'].copy(), A['natypes'], A['symbols']
+        propsB = trip.gen_props(rng, B, wb)
+        eB = trip.expect(B, propsB, wb)
+        if kind == 'reset':
+            with ctx.guard(clause, f'{base}:first:exception'):
+                judge('first', trip.load(text, A, pinfo, 0), eA)
+            with ctx.guard(f'{fmt}: a System re-set in place is written', f'{base}:after-reset:exception'):
+                reset_in_place(sysA, B, propsB, i)
+                textB, pinfoB = trip.dump(sysA, 0)
+                judge('after-reset', trip.load(textB, B, pinfoB, 0), eB)
+            with ctx.guard(f'{fmt}: a System re-set in place is written', f'{base}:set-back:exception'):
+                reset_in_place(sysA, A, propsA, i + 1)
+                textA2, pinfoA2 = trip.dump(sysA, 0)
+                rec.check(textA2 == text, f'{fmt}: a System set back to its first state is written as the first time',
+                          f'{base}:set-back-differs')
+                judge('set-back', trip.load(textA2, A, pinfoA2, 0), eA)
+            continue
+        # ------------------------------------------------------------------------------------------ A-B-A
+        sA = None
+        snap_p = copy.deepcopy(pinfo)
+        with ctx.guard(clause, f'{base}:first:exception'):
+            sA = trip.load(text, A, pinfo, 0)
+            judge('first', sA, eA)
+        if sA is None:
+            continue
+        if isinstance(sA, tuple):
+            sA = sA[0]
+        obsA = observe(sA)
+        boxA = trip.lkw.get('box')
+        snap_box = (boxA.vects, boxA.origin) if boxA is not None else None
+        sB = None
+        with ctx.guard(f'{fmt} dump to a string', f'{fmt}:dump:exception'):
+            textB, pinfoB = trip.dump(build(env, B, propsB), wb)
+        with ctx.guard(clause, f'{base}:second:exception'):
+            # the conversion table object that served for A serves again (same columns); the keyword dicts are the same objects
+            sB = trip.load(textB if rnd % 2 else io.BytesIO(textB.encode()), B, pinfo if pinfo is not None else pinfoB, wb)
+            judge('second', sB, eB)
+        d = CMP.differences(obsA, observe(sA))
+        rec.check(not d, f'{fmt}: a System returned earlier is not changed by a later dump/load', f'{base}:earlier-result-changed', changed=d)
+        rec.check(CMP.plain_equal(trip.snapshot, trip.dkw),
+                  f'{fmt}: dump and load leave the keyword arguments (with a conversion table written by the caller) as they were handed over',
+                  f'{base}:argument-changed', before=repr(trip.snapshot.get('prop_info'))[:400], after=repr(trip.dkw.get('prop_info'))[:400])
+        rec.check(CMP.plain_equal(snap_p, pinfo), f'{fmt}: load leaves the conversion table returned by the writer as it was',
+                  f'{base}:returned-table-changed', before=repr(snap_p)[:400], after=repr(pinfo)[:400])
+        if snap_box is not None:
+            rec.check(np.array_equal(snap_box[0], boxA.vects) and np.array_equal(snap_box[1], boxA.origin),
+                      f'{fmt}: load leaves the box it was handed as it was', f'{base}:argument-changed')
+        if sB is not None:
+            with ctx.guard(f'{fmt}: a returned System can be modified', f'{base}:scramble:exception'):
+                if scramble(sB[0] if isinstance(sB, tuple) else sB):
+                    rec.count('history:result-holds-read-only-arrays')
+            d = CMP.differences(obsA, observe(sA))
+            rec.check(not d, f'{fmt}: two returned Systems share no data', f'{base}:results-share-data', changed=d)
+        with ctx.guard(clause, f'{base}:repeat:exception'):
+            sA2 = trip.load(text, A, pinfo, 0)
+            judge('repeat', sA2, eA)
+            d = CMP.differences(obsA, observe(sA2[0] if isinstance(sA2, tuple) else sA2))
+            rec.check(not d, f'{fmt}: reading the same text again gives the same System bit for bit, whatever was read in between',
+                      f'{base}:repeat-differs', changed=d)
+        with ctx.guard(f'{fmt} dump to a string', f'{fmt}:dump:exception'):
+            t2, _ = trip.dump(build(env, A, propsA), 0)
+            rec.check(t2 == text, f'{fmt}: writing the same System again gives the same text, whatever was written in between',
+                      f'{base}:redump-differs')
+        rec.count(f'history:{fmt}:A-B-A:completed')
+
+
 # ------------------------------------------------------------------------------------------------ run
 REACH = [('atomman/load/atom_data/load.py', 304, 315, 'data:image-flags-reapplied', 4),
          ('atomman/load/atom_data/load.py', 231, 244, 'data:format-errors', 3),
@@ -958,6 +1530,8 @@ def run(ctx):
         group_poscar(env)
         group_scale(env)
         group_shapes(env)
+        group_pscale(env)
+        group_history(env)
     finally:
         shutil.rmtree(env.tmp, ignore_errors=True)
     for f, lo, hi, name, _ in REACH:
@@ -1044,3 +1618,39 @@ def run(ctx):
     rec.floor('loads:atom_dump:stream:shapes:returned-prop_info', 15)
     rec.floor('loads:atom_dump:string:shapes:returned-as-lists', 40)
     rec.floor('loads:atom_dump:string:shapes:file-alone', 30)
+    # POSCAR scale-factor classes
+    for cl in GS.SCALECLASSES:
+        rec.floor(f'class:pscale:{cl}', 6)
+        rec.floor(f'class:pscale:{cl}:cartesian', 2)
+        rec.floor(f'class:pscale:{cl}:direct', 2)
+    for fm in FMT_POSCAR:
+        rec.floor(f'class:pscale:fmt:{fm}', 12)
+    rec.floor('class:pscale:scale-needs-more-than-7-digits:cartesian', 20)
+    rec.floor('class:pscale:scale-needs-more-than-7-digits:direct', 12)
+    rec.floor('class:pscale:scale-needs-15-or-more-digits', 40)
+    for fm in TX.SCALE_TEXT_FORMS:
+        rec.floor(f'class:pscale:scale-line:{fm}', 8)
+    rec.floor('loads:poscar:string:scale-classes', 80)
+    rec.floor('loads:poscar:path:scale-classes', 30)
+    rec.floor('loads:poscar:stream:scale-classes', 30)
+    rec.floor('loads:poscar:string:scale-line-forms', 80)
+    # call histories and input forms: every format x every kind of history, every form through every format
+    for fm in HIST_FORMATS:
+        for kd in HIST_KINDS:
+            rec.floor(f'class:history:{fm}:{kd}', 8)
+        for f2 in GS.FORMS:
+            rec.floor(f'class:history:{fm}:form:{f2}', 2)
+            rec.floor(f'loads:{fm}:history:forms:{f2}', 2)
+        rec.floor(f'history:{fm}:A-B-A:completed', 8)
+        rec.floor(f'history:{fm}:deepcopy:evaluated', 8)
+        rec.floor(f'history:{fm}:handles:written', 8)
+        for step in ('A-B-A:first', 'A-B-A:second', 'A-B-A:repeat', 'reset:first', 'reset:after-reset', 'reset:set-back',
+                     'gen2:first', 'gen2:second-generation', 'handles:binary-handle', 'handles:keyword', 'handles:bytesio'):
+            rec.floor(f'loads:{fm}:history:{step}', 8)
+    rec.floor('class:history:reset:box-relative-coordinates-written', 10)
+    rec.floor('class:history:atom_data:A-B-A:hybrid-first', 3)
+    rec.floor('class:history:atom_data:A-B-A:plain-first', 3)
+    rec.floor('class:history:A-B-A:caller-made-conversion-table', 4)
+    rec.floor('class:history:form:integer-atoms-in-float-cell', 4)
+    rec.floor('class:history:form:integer-atoms-in-integer-cell', 4)
+    rec.floor('class:history:form:integer-atoms-wrapped-by-a-float-cell', 2)
